@@ -1015,7 +1015,9 @@ class UserType(TupleType):
 
     @classmethod
     def cql_parameterized_type(cls):
-        return "frozen<%s>" % (cls.typename,)
+        # imported here because cassandra.metadata imports this module
+        from cassandra.metadata import protect_name
+        return "frozen<%s>" % (protect_name(cls.typename),)
 
     @classmethod
     def deserialize_safe(cls, byts, protocol_version):
